@@ -339,6 +339,28 @@ fn noise(out: &mut Out, rng: &mut Sm, thorough: bool) {
             let mut tape = Tape { data: rng.bytes(1 << 16), pos: 0 };
             let r = catch(AssertUnwindSafe(|| verif_dp::l1boundsum_add_noise(&t, &strategy, &mut v, &mut tape)));
             noise_case(out, "FP64", &format!("l1:{}", max), en, ed, &before, &v, &tape, r.map(|x| x.is_ok()).unwrap_or(false));
+            // bounds that need the top bit of the field's integer type: the doubled sensitivity exceeds it
+            let max = [(1u64 << 63) + 5, 1u64 << 63, modulus::<Field64>() as u64 - 1][rng.below(3) as usize];
+            let t = L1BoundSum::<Field64, PS64>::new(max, 2, 2).unwrap();
+            let mut v: Vec<Field64> = (0..2).map(|_| Field64::from(rng.next() % 1000)).collect();
+            let before = v.clone();
+            let mut tape = Tape { data: rng.bytes(1 << 16), pos: 0 };
+            let r = catch(AssertUnwindSafe(|| verif_dp::l1boundsum_add_noise(&t, &strategy, &mut v, &mut tape)));
+            noise_case(out, "FP64", &format!("l1:{}", max), en, ed, &before, &v, &tape, r.map(|x| x.is_ok()).unwrap_or(false));
+            let max = [(1u128 << 127) + 5, 1u128 << 127, modulus::<Field128>() - 1][rng.below(3) as usize];
+            let t = L1BoundSum::<Field128, PS128>::new(max, 2, 2).unwrap();
+            let mut v: Vec<Field128> = (0..2).map(|_| Field128::from(rng.u128() % 1000)).collect();
+            let before = v.clone();
+            let mut tape = Tape { data: rng.bytes(1 << 16), pos: 0 };
+            let r = catch(AssertUnwindSafe(|| verif_dp::l1boundsum_add_noise(&t, &strategy, &mut v, &mut tape)));
+            noise_case(out, "FP128", &format!("l1:{}", max), en, ed, &before, &v, &tape, r.map(|x| x.is_ok()).unwrap_or(false));
+            // SumVec with the widest element bound (bits = 63 / 127)
+            let t = SumVec::<Field64, PS64>::new((1u64 << 63) + 1, 2, 2).unwrap();
+            let mut v: Vec<Field64> = (0..2).map(|_| Field64::from(rng.next() % 1000)).collect();
+            let before = v.clone();
+            let mut tape = Tape { data: rng.bytes(1 << 16), pos: 0 };
+            let r = catch(AssertUnwindSafe(|| verif_dp::sumvec_add_noise(&t, &strategy, &mut v, &mut tape)));
+            noise_case(out, "FP64", "svec:64:2", en, ed, &before, &v, &tape, r.map(|x| x.is_ok()).unwrap_or(false));
         }
     }
 }
